@@ -155,6 +155,10 @@ type judgeCtx struct {
 	HashLostAtTarget bool
 	// floors at which a cancelled prune stopped earlier in this scenario
 	CancelFloors map[uint64]bool `json:"-"`
+	// Collapse, if set: everything found in this check is one witness of this class (the
+	// individual classes go into the witness) - for situations that are one defect whatever
+	// the probe question that exposes it
+	Collapse string
 }
 
 func (c judgeCtx) prefix() string {
